@@ -90,7 +90,7 @@ def mask_source(fn, mask_name, at, repo):
     return out.pop() if len(out) == 1 else None
 
 
-def nonempty(repo, fn, expr, at, depth=6, why=None):
+def nonempty(repo, fn, expr, at, depth=10, why=None):
     """(True, reason) when expr is provably non-empty at ``at``; else (False, reason)."""
     why = why if why is not None else []
     if depth == 0:
